@@ -131,79 +131,55 @@ theorem refidx_index_is_search_on_kept (t : Taxo) (fuel : Nat) (recs : List RefR
 
 /-! ## evaluated on tiny data (tests)
 
-Taxonomy `4,5 → 2 → 1`, `3 → 1`; taxid `9` is unknown.  Records `a` (taxon 4), `c` (taxon 3), `u`, `w` (unknown). -/
-
-/-- (test data) -/
-def exT : Taxo :=
-  { ids := [1, 2, 3, 4, 5],
-    node := fun k => match k with
-      | 1 => some ⟨1, ""⟩ | 2 => some ⟨1, ""⟩ | 3 => some ⟨1, ""⟩ | 4 => some ⟨2, ""⟩ | 5 => some ⟨2, ""⟩ | _ => none,
-    alias := fun _ => none }
-/-- (test data) -/
-def exA : RefRec := ⟨[97,99,103,116,97,99,103,116,97,99], some 4⟩
-/-- (test data) -/
-def exC : RefRec := ⟨[97,99,103,116,97,103,103,116,97,97], some 3⟩
-/-- (test data) -/
-def exU : RefRec := ⟨[97,99,103,116,116,116], some 9⟩
-/-- (test data) -/
-def exW : RefRec := ⟨[103,103,103,116,116,116], some 9⟩
+Taxonomy `4,5 → 2 → 1`, `3 → 1`; taxid `9` is unknown.  Records `a` (taxon 4), `c` (taxon 3), `u`, `w` (unknown): `suT`, `suA`, … of
+`Lemmas/TagSetup.lean`. -/
 
 /-- (test) the dropped record FIRST: `[u, a, c]` -/
-example : (tag1Setup exT [exU, exA, exC]).refs = [exA, exC] ∧
-    (tag1Setup exT [exU, exA, exC]).counts = [some (Kmer.count4mer exA.seq), some (Kmer.count4mer exC.seq)] ∧
-    (tag1Setup exT [exU, exA, exC]).taxa = [some (some 4), some (some 3), none] ∧
-    hasNil (tag1Setup exT [exU, exA, exC]).taxa = false := by
+example : (tag1Setup suT [suU, suA, suC]).refs = [suA, suC] ∧
+    (tag1Setup suT [suU, suA, suC]).counts = [some (Kmer.count4mer suA.seq), some (Kmer.count4mer suC.seq)] ∧
+    (tag1Setup suT [suU, suA, suC]).taxa = [some (some 4), some (some 3), none] ∧
+    hasNil (tag1Setup suT [suU, suA, suC]).taxa = false := by
   decide +kernel
 
 /-- (test) the dropped record in the MIDDLE: `[a, u, c]` -/
-example : (tag1Setup exT [exA, exU, exC]).refs = [exA, exC] ∧
-    (tag1Setup exT [exA, exU, exC]).counts = [some (Kmer.count4mer exA.seq), some (Kmer.count4mer exC.seq)] ∧
-    (tag1Setup exT [exA, exU, exC]).taxa = [some (some 4), some (some 3), none] ∧
-    hasNil (tag1Setup exT [exA, exU, exC]).taxa = false := by
+example : (tag1Setup suT [suA, suU, suC]).refs = [suA, suC] ∧
+    (tag1Setup suT [suA, suU, suC]).taxa = [some (some 4), some (some 3), none] ∧
+    hasNil (tag1Setup suT [suA, suU, suC]).taxa = false := by
   decide +kernel
 
 /-- (test) TWO CONSECUTIVE dropped records: `[u, w, a]` -/
-example : (tag1Setup exT [exU, exW, exA]).refs = [exA] ∧
-    (tag1Setup exT [exU, exW, exA]).counts = [some (Kmer.count4mer exA.seq)] ∧
-    (tag1Setup exT [exU, exW, exA]).taxa = [some (some 4), none, none] ∧
-    hasNil (tag1Setup exT [exU, exW, exA]).taxa = false := by
+example : (tag1Setup suT [suU, suW, suA]).refs = [suA] ∧
+    (tag1Setup suT [suU, suW, suA]).taxa = [some (some 4), none, none] ∧
+    hasNil (tag1Setup suT [suU, suW, suA]).taxa = false := by
   decide +kernel
 
 /-- (test) the dropped record LAST: `[a, c, u]` — a nil node stays under key 2 of the map -/
-example : (tag1Setup exT [exA, exC, exU]).refs = [exA, exC] ∧
-    (tag1Setup exT [exA, exC, exU]).counts = [some (Kmer.count4mer exA.seq), some (Kmer.count4mer exC.seq)] ∧
-    (tag1Setup exT [exA, exC, exU]).taxa = [some (some 4), some (some 3), some none] ∧
-    hasNil (tag1Setup exT [exA, exC, exU]).taxa = true := by
+example : (tag1Setup suT [suA, suC, suU]).refs = [suA, suC] ∧
+    (tag1Setup suT [suA, suC, suU]).taxa = [some (some 4), some (some 3), some none] ∧
+    hasNil (tag1Setup suT [suA, suC, suU]).taxa = true := by
   decide +kernel
 
 /-- (test) `refidxSetup` with the dropped record LAST / FIRST: no nil node -/
-example : (refidxSetup exT [exA, exC, exU]).refs = [exA, exC] ∧
-    (refidxSetup exT [exA, exC, exU]).taxa = [some (some 4), some (some 3), none] ∧
-    (refidxSetup exT [exU, exA, exC]).refs = [exA, exC] ∧
-    (refidxSetup exT [exU, exA, exC]).counts = [some (Kmer.count4mer exA.seq), some (Kmer.count4mer exC.seq)] ∧
-    (refidxSetup exT [exU, exA, exC]).taxa = [some (some 4), some (some 3), none] := by
+example : (refidxSetup suT [suA, suC, suU]).refs = [suA, suC] ∧
+    (refidxSetup suT [suA, suC, suU]).taxa = [some (some 4), some (some 3), none] ∧
+    (refidxSetup suT [suU, suA, suC]).refs = [suA, suC] ∧
+    (refidxSetup suT [suU, suA, suC]).taxa = [some (some 4), some (some 3), none] := by
   decide +kernel
 
-/-- (test) the worker of `CLIAssignTaxonomy` on `[u, a, c]`, query `acgtacgtaa` (distance 1 of both kept records):
+/-- (test) the worker of `CLIAssignTaxonomy` on `[u, a, c]`, query `acgtaa` (distance 1 of both kept records):
 the root, best match = kept position 0, two best references -/
-example : cliAssign1 exT 6 (fun _ => ['s', 'p', '@']) (fun _ => []) [exU, exA, exC]
-    [97,99,103,116,97,99,103,116,97,97] [0, 1] (fun _ => [0, 1]) = .ok 1 0 2 := by
+example : cliAssign1 suT 6 (fun _ => ['s', 'p', '@']) (fun _ => []) [suU, suA, suC]
+    [97,99,103,116,97,97] [0, 1] (fun _ => [0, 1]) = .ok 1 0 2 := by
   decide +kernel
 
-/-- (test) the same data base with the unknown record LAST (`[a, c, u]`; hypothesis of
-`cli_assign_trailing_unknown_panics` holds): `log.Panicf` -/
-example : ((([exA, exC, exU] : List RefRec).getLast?).map (fun r => !known exT r)).getD false = true ∧
-    cliAssign1 exT 6 (fun _ => ['s', 'p', '@']) (fun _ => []) [exA, exC, exU]
-      [97,99,103,116,97,99,103,116,97,97] [0, 1] (fun _ => [0, 1]) = .bad .panic := by
+/-- (test) the hypothesis of `cli_assign_trailing_unknown_panics` holds on `[a, c, u]` and on `[a, u]` -/
+example : ((([suA, suC, suU] : List RefRec).getLast?).map (fun r => !known suT r)).getD false = true ∧
+    ((([suA, suU] : List RefRec).getLast?).map (fun r => !known suT r)).getD false = true := by
   decide +kernel
 
 /-- (test) a 2-record data base whose last record has an unknown taxid: `log.Panicf` -/
-example : cliAssign1 exT 6 (fun _ => ['s', 'p', '@']) (fun _ => []) [exA, exU]
-    [97,99,103,116,97,99,103,116,97,97] [0] (fun _ => [0]) = .bad .panic := by
-  decide +kernel
-
-/-- (test) `IndexReferenceDB` on `[a, c, u]`: the index of kept reference 0 is built (no panic) -/
-example : (match refidxIndex exT 6 [exA, exC, exU] 0 [0, 1] with | .ok (.ok _) => true | _ => false) = true := by
+example : cliAssign1 suT 6 (fun _ => ['s', 'p', '@']) (fun _ => []) [suA, suU]
+    [97,99,103,116,97,97] [0] (fun _ => [0]) = .bad .panic := by
   decide +kernel
 
 end ObiVerif.Props.C15S
